@@ -233,7 +233,7 @@ class GenModel(object):
             a, b, c = r.sample(Vv, 3)
             if X.det3(self.ent[a]["c"], self.ent[b]["c"], self.ent[c]["c"]) != 0:
                 return self.build("Parallelepiped", [r.choice(P), a, b, c], "ConvexPolyhedron")
-        if choice < 0.88:
+        if choice < 0.86:
             polys = self.ids(lambda e: e["t"] == "ConvexPolygon" and e["kind"] == "composite")
             if polys:
                 return self.build("Neg", [r.choice(polys)], "ConvexPolygon")
@@ -299,9 +299,23 @@ class GenModel(object):
             how = r.choice(["move", "move", "setitem", "setattr"])
         elif e["t"] == "Vector":
             how = "setitem"
+        elif e["t"] in _INTERNAL and r.random() < 0.3:
+            how = "internal"
         else:
             how = "move"
         op = {"op": "MUTATE", "i": i, "how": how}
+        if how == "internal":
+            # the caller edits, in place, a Point / Vector it reached through the
+            # composite's public attributes (poly.points[i].x = ..., seg.start_point.move(v))
+            op["path"] = [r.randrange(8) if x == "#" else x for x in r.choice(_INTERNAL[e["t"]])]
+            if op["path"][-1] in ("sv", "dv", "vector", "n"):
+                op["edit"], op["idx"], op["val"] = "setitem", r.randrange(3), val()
+            elif r.random() < 0.5:
+                op["edit"], op["v"] = "move", X.ser(tuple(F(r.randint(-4, 4), 4) for _ in range(3)))
+            else:
+                op["edit"], op["attr"], op["val"] = "setattr", r.choice("xyz"), val()
+            self.ops.append(op)
+            return op
         if how == "move":
             v = tuple(F(r.randint(-6, 6), 4) for _ in range(3))
             x = r.random()
@@ -344,6 +358,14 @@ class GenModel(object):
 
 
 CELLS = [(q, a, b) for q in PAIR_Q for a in GEO for b in GEO]
+_INTERNAL = {
+    "Segment": [["start_point"], ["end_point"]],
+    "HalfLine": [["point"], ["vector"]],
+    "Line": [["sv"], ["dv"]],
+    "Plane": [["p"]],
+    "ConvexPolygon": [["points", "#"], ["points", "#"], ["center_point"]],
+    "ConvexPolyhedron": [["convex_polygons", "#", "points", "#"], ["center_point"]],
+}
 
 
 def generate(rng, k, tier="quick"):
@@ -390,14 +412,20 @@ def generate(rng, k, tier="quick"):
             others = m.ids(lambda e: e["t"] not in ("Vector",))
             if movable and others:
                 a, b = rng.choice(movable), rng.choice(others)
-                q = rng.choice(["inter_f", "inter_f", "in", "distance", "inter_m"])
+                q = rng.choice(["inter_f", "inter_f", "in", "distance", "inter_m", "area", "volume", "length", "hash"])
                 first, second = (a, b) if rng.random() < 0.5 else (b, a)
+                if q in SELF_Q:
+                    first, second = a, None
                 op = m.query(a=first, b=second, q=q)
                 v = X.mul(F(rng.choice([-4, -2, -1, 1, 2, 4]), 4), rng.choice(X.AXES))
-                m.ops.append({"op": "MUTATE", "i": a, "how": "move", "v": X.ser(v)})
+                internal = rng.random() < 0.4
+                if internal:
+                    m.mutate(a)  # may edit an internal Point / Vector through a public attribute
+                else:
+                    m.ops.append({"op": "MUTATE", "i": a, "how": "move", "v": X.ser(v)})
                 m.ops.append({"op": "QUERY", "qid": m.nid("q"), "q": q, "a": first, "b": second})
                 m.queries.append(m.ops[-1]["qid"])
-                if rng.random() < 0.4:
+                if not internal and rng.random() < 0.4:
                     m.ops.append({"op": "MUTATE", "i": a, "how": "move", "v": X.ser(X.mul(F(-1), v))})
                     m.ops.append({"op": "QUERY", "qid": m.nid("q"), "q": q, "a": first, "b": second})
                     m.queries.append(m.ops[-1]["qid"])
@@ -493,6 +521,21 @@ class World(object):
             how = op["how"]
             if how == "move":
                 r = call(lambda: o.move(G.Vector(*[float(F(x)) for x in op["v"]])))
+            elif how == "internal":
+                def edit():
+                    t = o
+                    for step in op["path"]:
+                        if isinstance(step, int):
+                            t = t[step % len(t)]
+                        else:
+                            t = getattr(t, step)
+                    if op["edit"] == "move":
+                        return t.move(G.Vector(*[float(F(x)) for x in op["v"]]))
+                    if op["edit"] == "setitem":
+                        return t.__setitem__(op["idx"], float(F(op["val"])))
+                    return setattr(t, op["attr"], float(F(op["val"])))
+
+                r = call(edit)
             elif how == "setitem":
                 r = call(lambda: o.__setitem__(op["idx"], float(F(op["val"]))))
             else:
